@@ -203,7 +203,7 @@ func generateMore(suite string, seed uint64, i int, r *rng, id string, g gp) *Ca
 	case "e2e-dec": // C01: sizes and spacings that are not dyadic (decimals, thirds, tiny and huge values); no exact model
 		// comparison on these - the question is only whether every call returns
 		edges, names := genGraph(r, g)
-		cfg := genCfg(r, cp{p1: []int{0, 1}, p2: []int{0, 1}, p4: []int{0, 1, 2, 3, 4}, bk: allBK, p5: []int{0, 1, 2, 4}, virt: 1}, names)
+		cfg := genCfg(r, cp{p1: []int{0, 1}, p2: []int{0, 1}, p4: []int{0, 1, 2, 3, 4}, bk: allBK, p5: []int{0, 1, 2, 4}, virt: 1, mon: true}, names)
 		dec := func(s string) string {
 			x := math.Floor(pf(s))
 			switch r.intn(6) {
@@ -235,7 +235,8 @@ func generateMore(suite string, seed uint64, i int, r *rng, id string, g gp) *Ca
 		if cfg.Fixed == nil && cfg.Sizes == nil {
 			cfg.Fixed = []string{dec("120p0"), dec("40p0")}
 		}
-		return &Case{ID: id, Op: "layout", Cfg: cfg, Edges: edges}
+		// repeated and monitor-toggled calls are compared bit for bit by the harness: that needs no exact model
+		return &Case{ID: id, Op: "layout", Cfg: cfg, Edges: edges, Arg: map[string]any{"repeat": 2.0, "montoggle": 1.0}}
 	case "c11-deep", "e2e-big": // more than 64 layers (a long spine with branches, rejoining chords and pendants) or very wide layers
 		var es [][2]int
 		n := 0
